@@ -123,6 +123,27 @@ int main (int argc, char** argv)
       char what[200]; snprintf (what, 200, "accepted request at the edge of the range (b0=%g b1=%g %s) yields finite factors", b0, b1, edge ? "max" : "min");
       if (!thrown) expect_true (what, std::isfinite (fA) && std::isfinite (fB));
     } }, 1);
+  // the admissible range itself, for equal and unequal modulation indices: requests just inside
+  // [ (exp(-s0 s1) - 1)/(b0 b1), (exp(s0 s1) - 1)/(b0 b1) ] are accepted, requests just outside are rejected
+  fn ("lognormal_range_plain", [&] {
+    for (double b0 : { 0.5, 1.0, 1.5, 2.0 }) for (double b1 : { 0.5, 1.0, 1.5, 2.0 }) {
+      double s0 = std::sqrt (std::log (b0*b0 + 1)), s1 = std::sqrt (std::log (b1*b1 + 1));
+      double lo = (std::exp (-s0*s1) - 1.0) / (b0*b1), hi = (std::exp (s0*s1) - 1.0) / (b0*b1);
+      const double fr[] = { 0.0, 0.5, 0.9, 0.999 };
+      for (int side=0; side<2; side++) for (int out=0; out<2; out++) for (double fq : fr) {
+        double edge = side ? hi : lo; double rho = out ? edge * (1.0 + 0.001 + 0.3 * fq) : edge * fq;
+        gauss_reset ();
+        bivariate_lognormal_modes* c = new bivariate_lognormal_modes (rho);
+        c->set_beta (0, b0); c->set_beta (1, b1); c->set_normal (&gasdev);
+        modulated_mode* A = c->get_modulated_mode (0, new mode); modulated_mode* B = c->get_modulated_mode (1, new mode);
+        double fA = 0, fB = 0; bool thrown = false;
+        std::streambuf* old = std::cerr.rdbuf (0);      // the library reports rejections on std::cerr
+        try { fA = A->modulation (); fB = B->modulation (); } catch (std::exception&) { thrown = true; }
+        std::cerr.rdbuf (old);
+        char what[240];
+        if (out) { snprintf (what, 240, "correlation %.6g outside the admissible range [%.6g, %.6g] of indices (%g, %g) is rejected", rho, lo, hi, b0, b1); expect_true (what, thrown); }
+        else { snprintf (what, 240, "correlation %.6g inside the admissible range [%.6g, %.6g] of indices (%g, %g) is accepted with finite factors", rho, lo, hi, b0, b1); expect_true (what, !thrown && std::isfinite (fA) && std::isfinite (fB)); }
+      } } }, 1);
 #endif
 
   symx::finish ();
